@@ -43,6 +43,13 @@ G(d) == IF Guide # <<>> THEN gk < Len(Guide) /\ Guide[gk + 1] = d /\ gk' = gk + 
         ELSE IF TOSeq # <<>> /\ d[1] = "T" THEN gk < Len(TOSeq) /\ TOSeq[gk + 1] = d[2] /\ gk' = gk + 1
         ELSE gk' = gk
 
+\* message steps may also name the term of the message: <<"D", type, src, dst, term>>
+GD(m) == IF Guide # <<>>
+         THEN /\ gk < Len(Guide)
+              /\ Guide[gk + 1] \in {<<"D", m.type, m.src, m.dst>>, <<"D", m.type, m.src, m.dst, m.term>>}
+              /\ gk' = gk + 1
+         ELSE gk' = gk
+
 Init ==
     /\ nd = [n \in Nodes |-> InitNode]
     /\ msgs = EmptyBag
@@ -74,7 +81,7 @@ Heartbeat(n) ==
 
 Deliver(m) ==
     /\ BagIn(m, msgs) /\ m.dst \notin crashed
-    /\ G(<<"D", m.type, m.src, m.dst>>)
+    /\ GD(m)
     /\ Step(m.dst, OnMsg(nd[m.dst], m.dst, m), msgs (-) SetToBag({m}))
     /\ UNCHANGED <<crashed, nops, ncrash>>
 
@@ -88,7 +95,7 @@ Drop(m) ==
 \* delivered to a crashed node: Event.invoke drops it
 DeliverCrashed(m) ==
     /\ BagIn(m, msgs) /\ m.dst \in crashed
-    /\ G(<<"D", m.type, m.src, m.dst>>)
+    /\ GD(m)
     /\ msgs' = msgs (-) SetToBag({m})
     /\ UNCHANGED <<nd, crashed, nops, ncrash, ldr, cmt, futs>>
 
@@ -188,4 +195,37 @@ StaleGuide == <<
     <<"S", 1>>, <<"D", "AER", 2, 1>>, <<"H", 1>>, <<"D", "AE", 1, 4>>, <<"D", "AER", 4, 1>>,
     <<"D", "RV", 1, 3>>, <<"T", 3>>, <<"D", "RV", 3, 2>>, <<"D", "RV", 3, 5>>,
     <<"D", "RVR", 2, 3>>, <<"D", "RVR", 5, 3>> >>
+
+(* Directed scenario (5 nodes), the "figure 8" history with a twist: n1      *)
+(* (term 1) replicates A to n2 only; n5 wins term 2 with n3,n4 and appends B  *)
+(* locally; n1 wins term 3 with n2,n3, brings n2 and n3 up to A through the   *)
+(* back-off re-send while it has already appended C (term 3) locally: A      *)
+(* (term 1) is now on 3 of 5 nodes but must NOT be committed by counting;     *)
+(* n5 wins term 4 with n2,n3,n4, overwrites index 1 with B and commits.       *)
+(* Every "D" step ranges over all in-flight messages of that class, so the    *)
+(* graph also contains the variants with the older/newer message delivered.   *)
+Fig8Guide == <<
+    <<"T", 1>>, <<"D", "RV", 1, 2>>, <<"D", "RV", 1, 3>>, <<"D", "RV", 1, 4>>, <<"D", "RV", 1, 5>>,
+    <<"D", "RVR", 2, 1>>, <<"D", "RVR", 3, 1>>,
+    <<"S", 1>>, <<"H", 1>>, <<"D", "AE", 1, 2>>,
+    <<"T", 5>>, <<"D", "RV", 5, 3>>, <<"D", "RV", 5, 4>>, <<"D", "RVR", 3, 5>>, <<"D", "RVR", 4, 5>>, <<"S", 5>>,
+    <<"D", "AE", 5, 1>>, <<"T", 1>>, <<"D", "RV", 1, 2, 3>>, <<"D", "RV", 1, 3, 3>>,
+    <<"D", "RVR", 2, 1, 3>>, <<"D", "RVR", 3, 1, 3>>,
+    <<"D", "AE", 1, 2, 3>>, <<"D", "AER", 2, 1, 3>>, <<"D", "AE", 1, 3, 3>>, <<"D", "AER", 3, 1, 3>>,
+    <<"S", 1>>, <<"D", "AE", 1, 3, 3>>, <<"D", "AER", 3, 1, 3>>,
+    <<"D", "AE", 1, 5, 3>>, <<"T", 5>>, <<"D", "RV", 5, 2, 4>>, <<"D", "RV", 5, 3, 4>>, <<"D", "RV", 5, 4, 4>>,
+    <<"D", "RVR", 2, 5, 4>>, <<"D", "RVR", 3, 5, 4>>,
+    <<"D", "AE", 5, 2, 4>>, <<"D", "AER", 2, 5, 4>>, <<"D", "AE", 5, 3, 4>>, <<"D", "AER", 3, 5, 4>>,
+    <<"S", 5>>, <<"H", 5>>, <<"D", "AE", 5, 2, 4>>, <<"D", "AER", 2, 5, 4>>, <<"D", "AE", 5, 3, 4>>,
+    <<"D", "AER", 3, 5, 4>>, <<"H", 5>>, <<"D", "AE", 5, 2, 4>>, <<"D", "AE", 5, 3, 4>>, <<"D", "AE", 5, 1, 4>> >>
+
+(* Directed scenario (5 nodes), split vote and retry: n1 and n2 campaign in   *)
+(* term 1 and each get one foreign vote (n3 -> n1, n5 -> n2), n4 is silent;   *)
+(* both time out again WITHOUT stepping down (candidate -> candidate, term 2);*)
+(* n3 and n5 now vote n2 (leader of term 2 with 3 votes), n4 votes n1: n1 has *)
+(* two votes of term 2 and must not count n3's vote of term 1.                *)
+SplitVoteGuide == <<
+    <<"T", 1>>, <<"T", 2>>, <<"D", "RV", 1, 3>>, <<"D", "RV", 2, 5>>, <<"D", "RVR", 3, 1>>, <<"D", "RVR", 5, 2>>,
+    <<"T", 2>>, <<"T", 1>>, <<"D", "RV", 2, 3, 2>>, <<"D", "RV", 2, 5, 2>>, <<"D", "RVR", 3, 2, 2>>,
+    <<"D", "RVR", 5, 2, 2>>, <<"D", "RV", 1, 4>>, <<"D", "RVR", 4, 1>>, <<"S", 2>>, <<"H", 2>>, <<"D", "AE", 2, 1>>, <<"D", "AER", 1, 2>> >>
 =============================================================================
